@@ -224,6 +224,13 @@ def direct(kind, path, extra, info):
             return f"ok {len(m)} {rows}"
         from sourmash.manifest import CollectionManifest as CM
         guard("mf", lambda: encode.enc_manifest(path), run, _codes(CM.load_from_csv, CM.__init__, CM._add_rows))
+
+        def run_file():
+            m = CM.load_from_filename(path)
+            rows = ";".join(f"{r['num']},{r['scaled']},{r['ksize']},{r['n_hashes']},{1 if r['with_abundance'] else 0}" for r in m.rows)
+            return f"ok {len(m)} {rows}"
+        guard("mff", lambda: encode.enc_manifest_file(path), run_file,
+              _codes(CM.load_from_filename, CM.load_from_sql, CM.load_from_csv, CM.__init__, CM._add_rows))
     elif kind in ("picklist", "plarg"):
         argstr = (extra or "{}:md5:md5").replace("{}", path)
 
@@ -253,7 +260,7 @@ def direct(kind, path, extra, info):
                     f"{len(db._idx_to_lid)} {oi(db._next_index)} {oi(db._next_lid)}")
         from sourmash.lca.lca_db import LCA_Database as LD
         guard("lca", lambda: encode.enc_lca(path), run, _codes(LD.load, LD.__init__))
-    elif kind == "sbtjson":
+    elif kind in ("sbtjson", "sbtzip"):
         def run():
             from sourmash.sbt import SBT
             from sourmash.sbtmh import SigLeaf
